@@ -85,25 +85,33 @@ def judge_chain(w: World, prop: str, sut: S.ServerUnderTest, info: Dict[str, Any
 
 
 def fam_chain(w: World) -> None:
+    """One to three documents, one after another, through one long-lived dispatcher with middlewares and handlers."""
     ch = w.ch
-    info = S.gen_document(ch, max_len=4, allow_junk=True)
-    n = len(info['doc']) if isinstance(info['doc'], list) else 1
+    n_deliveries = 1 + ch.draw(3, 'deliveries')
+    infos = [S.gen_document(ch, max_len=4, allow_junk=True, tok_prefix=f'd{d}_' if d else '') for d in range(n_deliveries)]
+    n = max((len(i['doc']) if isinstance(i['doc'], list) else 1) for i in infos)
     cfg = S.draw_config(ch, n, middlewares=True, handlers=True)
-    S.plan_pauses(w, cfg, n + 1, rate=2)
-    w.scenario = {'cfg': cfg, 'text': info['text'], 'kinds': info['kinds']}
+    for d in range(n_deliveries):
+        S.plan_pauses(w, cfg, n + 1, rate=2, tok_prefix=f'd{d}_' if d else '')
+    w.scenario = {'cfg': cfg, 'texts': [i['text'] for i in infos], 'kinds': [i['kinds'] for i in infos]}
     w.nontrivial = bool(cfg['middlewares']) or bool(cfg['handlers'])
-    ctx = {'async': cfg['async'], 'mws': list(cfg['middlewares']), 'shape': info['shape'],
-           'handler_keys': sorted(cfg['handlers'])}
     sut = S.ServerUnderTest(w, cfg, context=SimpleNamespace(mark='ctx-mark'))
-    before = len(w.history)
-    outcome = sut.deliver(info['text'])
-    recs = [r for r in w.history[before:] if r['node'] == sut.node_name]
-    doc = S.check_wellformed(w, PROP, info['text'], outcome, ctx)
-    if outcome[0] == 'raise':
-        return
-    judge_chain(w, PROP, sut, info, outcome, doc, recs, ctx)
-    w.sig_parts = [(r.get('tok'), r['kind'], r.get('mw', r.get('hid'))) for r in recs
-                   if r['kind'] in ('mw.enter', 'mw.exit', 'mw.step', 'eh.call', 'eh.step', 'method.enter', 'method.step')]
+    sig = []
+    for d, info in enumerate(infos):
+        ctx = {'async': cfg['async'], 'mws': list(cfg['middlewares']), 'shape': info['shape'],
+               'handler_keys': sorted(cfg['handlers']), 'delivery': d}
+        before = len(w.history)
+        outcome = sut.deliver(info['text'])
+        recs = [r for r in w.history[before:] if r['node'] == sut.node_name]
+        doc = S.check_wellformed(w, PROP, info['text'], outcome, ctx)
+        if outcome[0] == 'raise':
+            return
+        judge_chain(w, PROP, sut, info, outcome, doc, recs, ctx)
+        sig += [(r.get('tok'), r['kind'], r.get('mw', r.get('hid'))) for r in recs
+                if r['kind'] in ('mw.enter', 'mw.exit', 'mw.step', 'eh.call', 'eh.step', 'method.enter', 'method.step')]
+        if w.violations:
+            return
+    w.sig_parts = sig
 
 
 FAMILIES = {'chain': fam_chain}
